@@ -1,3 +1,3 @@
 module resfacts
 
-go 1.21
+go 1.22
